@@ -162,6 +162,20 @@ func c03Fixed() []c03FixedCase {
 		addA("iface-held-overlapping-views-of-one-any-slice", a, 0, 1)
 	}
 
+	// --- structs held by value in an interface keep their unexported fields
+	{
+		p := c03PlanOf("A",
+			c03With(c03N(), func(n *c03NodePlan) {
+				n.Any = c03AnyPlan{K: "time", I: 1}
+				n.SkipAny = c03AnyPlan{K: "time", I: 0}
+				n.Next = 1
+			}),
+			c03With(c03N(), func(n *c03NodePlan) { n.Any = c03AnyPlan{K: "priv", I: 0}; n.SkipAny = c03AnyPlan{K: "amap", I: 0} }))
+		p.AMaps = []map[string]c03AnyPlan{{"t": {K: "time", I: 3}, "p": {K: "priv", I: 1}, "as": {K: "aslice", I: 0}}}
+		p.ASlices = [][]c03AnyPlan{{{K: "priv", I: 0}, {K: "time", I: 2}}}
+		addA("by-value-structs-with-unexported-fields-in-iface", p, 0, 2, 4)
+	}
+
 	// --- plain topologies
 	addA("self-loop", c03PlanOf("A", c03With(c03N(), func(n *c03NodePlan) { n.Next = 0 })), 0, 2, 4)
 	addA("2-cycle", c03PlanOf("A", c03With(c03N(), func(n *c03NodePlan) { n.Next = 1 }), c03With(c03N(), func(n *c03NodePlan) { n.Next = 0 })), 0, 1, 3)
@@ -311,6 +325,30 @@ func c03Fixed() []c03FixedCase {
 		addB("restack/defaults-skipped-fields-survive-restacks", &c03Scenario{Defaults: sk, Watch: 0,
 			Sources: []c03SrcPlan{{Plan: bRich, Set: []string{"Kids", "M", "Leaf"}}},
 			Updates: []c03SrcPlan{{Plan: sk, Set: []string{"Kids", "Pair"}, Ptr: true}, {Plan: b2, Set: []string{"Kids"}}}}, "")
+	}
+	// by-value structs with unexported fields, and the three hand-over forms of a source value
+	{
+		tp := c03PlanOf("B",
+			c03With(c03N(), func(n *c03NodePlan) {
+				n.Any = c03AnyPlan{K: "priv", I: 1}
+				n.SkipAny = c03AnyPlan{K: "time", I: 1}
+				n.Kids = []int{1}
+			}),
+			c03With(c03N(), func(n *c03NodePlan) { n.Any = c03AnyPlan{K: "time", I: 3}; n.SkipAny = c03AnyPlan{K: "priv", I: 0} }))
+		tt := c03PlanOf("B", c03With(c03N(), func(n *c03NodePlan) { n.Any = c03AnyPlan{K: "time", I: 1}; n.Kids = []int{0} }))
+		addB("config/defaults-by-value-structs-with-unexported-fields", &c03Scenario{Defaults: tp, Watch: -1}, "")
+		addB("config/defaults-time-in-iface", &c03Scenario{Defaults: tt, Watch: -1}, "")
+		addB("config/source-by-value-structs-with-unexported-fields", &c03Scenario{Defaults: c03TrivialPlan("B"), Watch: -1,
+			Sources: []c03SrcPlan{{Plan: tp, Set: all}}}, "")
+		addB("config/source-time-in-iface-non-addressable", &c03Scenario{Defaults: c03TrivialPlan("B"), Watch: -1,
+			Sources: []c03SrcPlan{{Plan: tt, Set: all, NoAddr: true}}}, "")
+		addB("config/source-value-non-addressable", &c03Scenario{Defaults: bSelf, Watch: -1,
+			Sources: []c03SrcPlan{{Plan: bRich, Set: noAny, NoAddr: true}}}, "")
+		addB("config/source-values-in-all-three-forms", &c03Scenario{Defaults: c03TrivialPlan("B"), Watch: -1,
+			Sources: []c03SrcPlan{{Plan: bRich, Set: []string{"Kids", "M"}, NoAddr: true}, {Plan: b2, Set: []string{"Pair", "Leaf", "MM"}, Ptr: true}, {Plan: bMapSelf, Set: []string{"Any", "Pairs"}}}}, "")
+		addB("restack/non-addressable-values-reported", &c03Scenario{Defaults: bSelf, Watch: 0,
+			Sources: []c03SrcPlan{{Plan: bRich, Set: noAny, NoAddr: true}},
+			Updates: []c03SrcPlan{{Plan: b2, Set: noAny, NoAddr: true}, {Plan: bRich, Set: noAny, Ptr: true}, {Plan: tp, Set: noAny, NoAddr: true}}}, "")
 	}
 	// two layers set Any: a slice/array/map payload replaces the lower layer's value as a whole
 	addB("config/slice-in-iface-set-by-two-layers", &c03Scenario{Defaults: c03TrivialPlan("B"), Watch: -1,
